@@ -248,8 +248,8 @@ class Oracle:
                 hooked = w.forwarders(o).get(n, "absent")
                 if not got and hooked != x:
                     kind, c = "delegate-no-notify", "forwarder-" + ("absent" if hooked == "absent" else "unhooked")
-                    if cfg == "star-chain-prefix-mismatch":
-                        c = cfg
+                    if cfg == "star-chain-prefix-mismatch" and hooked == "absent":
+                        c = cfg      # re-linking failed because write walk and listener hook disagree
                 elif not got and self.style(a) in ("prefix", "star"):
                     kind, c = "delegate-no-notify", "wildcard-prefix"
                 elif not got:
